@@ -200,6 +200,52 @@ fn trace(run: &mut Run, proto: Protocol, target: IpAddr, signals: bool, rounds: 
     }
 }
 
+/// `Tracer::spawn` / `spawn_with` (what the application uses): the handle joins with `Ok`, the returned tracer shows the
+/// rounds, the callback saw each of them once and in order
+fn spawned(run: &mut Run, rounds: usize) {
+    use std::sync::{Arc, Mutex};
+    for with_callback in [false, true] {
+        let target = IpAddr::V4(Ipv4Addr::LOCALHOST);
+        let built = Builder::new(target)
+            .max_rounds(Some(rounds))
+            .min_round_duration(Duration::from_millis(40))
+            .max_round_duration(Duration::from_millis(150))
+            .grace_duration(Duration::from_millis(10))
+            .read_timeout(Duration::from_millis(5))
+            .max_ttl(4)
+            .build();
+        let Ok(tracer) = built else { run.count("platform:build-rejected"); continue };
+        let seen: Arc<Mutex<Vec<usize>>> = Arc::new(Mutex::new(vec![]));
+        let s2 = seen.clone();
+        let res = guarded(move || {
+            let (t, h) = if with_callback {
+                tracer.spawn_with(move |r| { if let Some(p) = r.probes.iter().find_map(|p| match p { trippy_core::ProbeStatus::Complete(c) => Some(c.round.0), trippy_core::ProbeStatus::Awaited(a) => Some(a.round.0), _ => None }) { s2.lock().unwrap().push(p); } })
+            } else {
+                tracer.spawn()
+            }.map_err(|e| e.to_string())?;
+            let joined = h.join().map_err(|_| "the tracer thread panicked".to_string())?;
+            Ok::<_, String>((t, joined.map_err(|e| e.to_string())))
+        });
+        let ctx = format!("Tracer::{} of 127.0.0.1, {rounds} rounds", if with_callback { "spawn_with" } else { "spawn" });
+        match res {
+            Err(p) => run.fail("c09-platform-run", format!("{ctx}: panic {p}")),
+            Ok(Err(e)) => run.fail("c09-platform-run", format!("{ctx}: {e}")),
+            Ok(Ok((_, Err(e)))) => {
+                if e.contains("not permitted") || e.contains("Permission denied") { run.count("platform:run-unavailable"); } else { run.fail("c09-platform-run", format!("{ctx}: ended with [{e}]")); }
+            }
+            Ok(Ok((t, Ok(())))) => {
+                run.count("platform:spawned");
+                let st = t.snapshot();
+                let n = st.round_count(trippy_core::State::default_flow_id());
+                let cb = seen.lock().unwrap().clone();
+                if n != rounds || st.error().is_some() || (with_callback && cb != (0..rounds).collect::<Vec<_>>()) {
+                    run.fail("c09-platform-run", format!("{ctx}: joined with Ok; the returned tracer shows {n} rounds, error {:?}; the callback saw rounds {cb:?}", st.error()));
+                }
+            }
+        }
+    }
+}
+
 pub fn run(_rng: &mut Rng, thorough: bool, _corpus: &[String]) -> Run {
     let mut run = Run::new();
     run.op("conc noop".into(), "ok".into());
@@ -207,6 +253,7 @@ pub fn run(_rng: &mut Rng, thorough: bool, _corpus: &[String]) -> Run {
     install_handler();
     readiness(&mut run);
     let rounds = if thorough { 8 } else { 3 };
+    spawned(&mut run, rounds);
     for target in [IpAddr::V4(Ipv4Addr::LOCALHOST), IpAddr::V6(Ipv6Addr::LOCALHOST)] {
         for proto in [Protocol::Icmp, Protocol::Udp, Protocol::Tcp] {
             // the quiet run decides whether this kind of trace is possible here at all
